@@ -174,10 +174,17 @@ func zzC06(depth int) {
 				zzCover("C06.first")
 			}
 		} else {
-			l.expire(RX, zzAddr(t.src), t.seq)
+			// time passes: the retention timer of this key fires - if the code armed one. A timer that
+			// was never armed (or was stopped) cannot fire, so the expiry is injected only then.
+			rx, ok := l.s.rxTrans[fmt.Sprintf("%s-%d", zzAddr(t.src), t.seq)]
+			armed := ok && rx.timer != nil
+			if armed || !t.seen {
+				l.expire(RX, zzAddr(t.src), t.seq)
+			}
 			after := l.effects()
 			zzAssert("C06.expiry.no-side-effect", after.sessions == before.sessions && after.nodes == before.nodes && after.calls == before.calls && after.sent == before.sent)
 			if t.seen {
+				zzAssert("C06.expiry.retention-timer-armed", armed)
 				zzAssert("C06.expiry.bookkeeping-released", after.rx == before.rx-1)
 				expired++ // this key's timer has fired (the harness injected its expiry); it is not stopped later
 				zzCover("C06.expiry")
